@@ -68,8 +68,11 @@ def configs(tier, seed):
         for c in ps.close_configs(5):
             out.append(dict(c, test="cover"))
         # representatives of the long-range diffuse/tight class (recorded finding F1, known_findings.json)
+        # ... and of its neighbour outside that class: tight h against a diffuse d shell 12 bohr away, where the
+        # result is accurate only because the recursion is built on the shell of higher angular momentum
         for la, lb, g, sp in ((5, 5, "far20z", [1, 1, 2, 1, 1, 0]), (4, 4, "far12x", [1, 1, 0, 1, 1, 2]),
-                              (5, 4, "far12x", [1, 1, 1, 1, 1, 1])):
+                              (5, 4, "far12x", [1, 1, 1, 1, 1, 1]), (5, 2, "far12x", [1, 1, 2, 1, 1, 0]),
+                              (5, 2, "far12x", [2, 1, 2, 2, 2, 0]), (5, 3, "far12x", [1, 1, 2, 1, 1, 0])):
             out.append({"kind": "pair", "la": la, "lb": lb, "ta": "cartesian", "tb": "spherical", "geom": g,
                         "shape": sp, "ic": None, "test": "cover"})
     lp = [(1, 3), (2, 0)] if tier == "quick" else [(la, lb) for la in range(6) for lb in range(6)]
